@@ -24,8 +24,8 @@ inverse = the Spec's Fermat inverse); the only inputs are the primality certific
 
 Status: everything below is proved (axioms: propext, Classical.choice, Quot.sound).  Limits worth knowing:
   * `Fr::square_root` does not terminate on non-squares (the real loop spins: `t` keeps order 2^32); the model has fuel
-    and returns `none` there.  Proved: on every square the fuel is NOT exhausted and the result squares to the input.
-    Not proved: that the model returns `none` on every non-square.
+    and returns `none` there.  Proved: on every square the fuel is NOT exhausted and the result squares to the input;
+    on every non-square the model returns `none` for ANY fuel (`t` never becomes 1).
   * `fp_inverse` needs reduced limbs (`a < p`); for non-reduced limbs (e.g. `a = p`) the real loop does not terminate.
   * `Fq::compare` (orders the stored limbs) and the limb-level operations are in `Properties/C02.lean`.
 -/
@@ -150,6 +150,15 @@ theorem fr_square_root {a : Fr} (ha : IsSquare a) : ∃ y, frSqrt a = some y ∧
 /-- … i.e. `±y` on `y²`; zero goes to zero. -/
 theorem fr_square_root_mul_self (y : Fr) : frSqrt (y * y) = some y ∨ frSqrt (y * y) = some (-y) := frSqrt_mul_self y
 theorem fr_square_root_zero : frSqrt 0 = some 0 := frSqrt_zero
+/-- On a non-square the loop of `Fr::square_root` never reaches `t = 1` (`t` keeps order `2^32`): the model returns `none`
+whatever the fuel — the real routine does not terminate.  So the routine returns exactly on the squares. -/
+theorem fr_square_root_not_isSquare {a : Fr} (ha : ¬ IsSquare a) : frSqrt a = none := frSqrt_none ha
+theorem fr_square_root_terminates_iff (a : Fr) : (frSqrt a).isSome ↔ IsSquare a := frSqrt_isSome_iff a
+theorem tonelli_shanks_not_isSquare_generic {K : Type} [Field K] [DecidableEq K] [Fintype K] {p bits tc th s fuel : Nat}
+    {c0 : K} (hcard : Fintype.card K = p) (hs : 1 ≤ s) (hp : p - 1 = 2 ^ s * tc) (hodd : p % 2 = 1)
+    (htc : tc < 2 ^ bits) (hc0 : c0 ^ 2 ^ s = 1) {a : K} (ha : ¬ IsSquare a) :
+    tonelliShanks bits c0 tc th s fuel a = none :=
+  tonelliShanks_not_isSquare hcard hs hp hodd htc hc0 ha
 
 /-! ## `hash_reduce` -/
 
